@@ -80,6 +80,48 @@ mut("c14-silent-payload-var", "C14", "cmd/gts/rotate.go",
     '\t\ttt := []tuple{\n\t\t\t{"command", strings.Join(ctx.Name, "-")},\n\t\t\t{"version", gts.Version.String()},\n\t\t\t{"locator", *locstr},\n\t\t\t{"filetype", filetype},\n\t\t}\n\t\tdata := encodePayload(tt)\n',
     silent=True)
 
+# ---------------------------------------------------------------- C13
+mut("c13-int1-drop-bodysum", "C13", "cmd/cache/header.go",
+    '\tif !bytes.Equal(bsum, h.BodySum) {\n\t\treturn errors.New("body hash sum mismatch")\n\t}\n', '\t_ = bsum\n',
+    ["INT-1|cache.Header.Validate|field=BodySum"])
+mut("c13-int1-wrong-polarity", "C13", "cmd/cache/header.go", "if !bytes.Equal(dsum, h.DataSum) {", "if bytes.Equal(dsum, h.DataSum) {",
+    ["INT-1|cache.Header.Validate|nil-only-if-all-equal"])
+mut("c13-int2-flip-acc", "C13", "cmd/cache/file.go", "if err := hd.Validate(rsum, dsum, bsum); ret == nil {", "if err := hd.Validate(rsum, dsum, bsum); ret != nil {",
+    ["INT-2|cache.Open|err-Validate"])
+mut("c13-int2-validate-args", "C13", "cmd/cache/file.go", "hd.Validate(rsum, dsum, bsum)", "hd.Validate(rsum, rsum, bsum)", ["INT-2|cache.Open|validate-arg=DataSum"])
+mut("c13-int2-drop-copy-error", "C13", "cmd/cache/file.go", "\t_, ret := io.Copy(h, f)\n", "\tvar ret error\n\tio.Copy(h, f)\n", ["INT-2|cache.Open|err-io.Copy"])
+mut("c13-int3-copyn", "C13", "cmd/cache/file.go", "_, ret := io.Copy(h, f)", "_, ret := io.CopyN(h, f, 4096)", ["INT-3|cache.Open"])
+mut("c13-int3-no-reset", "C13", "cmd/cache/file.go", "\th.Reset()\n\t_, ret := io.Copy(h, f)", "\t_, ret := io.Copy(h, f)", ["INT-3|cache.Open|body-digest"])
+mut("c13-int4-short-header", "C13", "cmd/cache/header.go",
+    '\tif n != len(p) {\n\t\treturn Header{}, errors.New("could not read sufficient bytes in header")\n\t}\n', '\t_ = n\n', ["INT-4|cache.ReadHeader|short-read"])
+mut("c13-int5-name-rsum-only", "C13", "cmd/cache/file.go",
+    "func CreateLevel(path string, h hash.Hash, rsum, dsum []byte, level int) (*File, error) {\n\th.Reset()\n\th.Write(append(rsum, dsum...))",
+    "func CreateLevel(path string, h hash.Hash, rsum, dsum []byte, level int) (*File, error) {\n\th.Reset()\n\th.Write(rsum)",
+    ["INT-5|cache.CreateLevel|name-binds-key", "INT-5|cache|same-name"])
+mut("c13-int6-header-before-hash", "C13", "cmd/cache/file.go",
+    "\t\tf.h.Reset()\n\t\tif _, err := io.Copy(f.h, f.f); ret == nil {\n\t\t\tret = err\n\t\t}\n\n\t\tf.hd.BodySum = f.h.Sum(nil)\n\t\tif _, err := f.f.Seek(0, io.SeekStart); ret == nil {\n\t\t\tret = err\n\t\t}\n\n\t\tif _, err := f.hd.WriteTo(f.f); ret == nil {\n\t\t\tret = err\n\t\t}\n",
+    "\t\tif _, err := f.f.Seek(0, io.SeekStart); ret == nil {\n\t\t\tret = err\n\t\t}\n\n\t\tif _, err := f.hd.WriteTo(f.f); ret == nil {\n\t\t\tret = err\n\t\t}\n\n\t\tf.h.Reset()\n\t\tif _, err := io.Copy(f.h, f.f); ret == nil {\n\t\t\tret = err\n\t\t}\n\n\t\tf.hd.BodySum = f.h.Sum(nil)\n",
+    ["INT-6|cache.File.Close|order"])
+mut("c13-int6-no-flush", "C13", "cmd/cache/file.go", "\t\tret := f.wr.Close()\n\n\t\tif _, err := f.f.Seek(int64(f.h.Size())*3, io.SeekStart); ret == nil {",
+    "\t\tvar ret error\n\n\t\tif _, err := f.f.Seek(int64(f.h.Size())*3, io.SeekStart); ret == nil {", ["INT-6|cache.File.Close|order"])
+mut("c13-int6-factor-open", "C13", "cmd/cache/file.go", "f.Seek(int64(size)*3, io.SeekStart)", "f.Seek(int64(size)*2, io.SeekStart)", ["INT-6|cache.Open|seek|factor"])
+mut("c13-int6-writeto-order", "C13", "cmd/cache/header.go", "append(append(h.RootSum, h.DataSum...), h.BodySum...)", "append(append(h.DataSum, h.RootSum...), h.BodySum...)", ["INT-6|cache.Header.WriteTo|layout"])
+mut("c13-int6-readheader-layout", "C13", "cmd/cache/header.go", "return Header{p[:i], p[i:j], p[j:]}, nil", "return Header{p[:i], p[j:], p[i:j]}, nil", ["INT-6|cache.ReadHeader|layout"])
+mut("c13-int6-placeholder-late", "C13", "cmd/cache/file.go",
+    "\t_, ret := f.Write(make([]byte, h.Size()*3))\n\n\thd := Header{rsum, dsum, nil}\n\trd := flate.NewReader(f)\n\twr, err := flate.NewWriter(f, level)\n",
+    "\thd := Header{rsum, dsum, nil}\n\trd := flate.NewReader(f)\n\twr, err := flate.NewWriter(f, level)\n\t_, ret := f.Write(make([]byte, h.Size()*3))\n",
+    ["INT-6|cache.CreateLevel|placeholder"])
+mut("c13-int8-close-seek-dropped", "C13", "cmd/cache/file.go",
+    "\t\tif _, err := f.f.Seek(0, io.SeekStart); ret == nil {\n\t\t\tret = err\n\t\t}\n", "\t\tf.f.Seek(0, io.SeekStart)\n", ["INT-8|cache.File.Close|err-os.File.Seek"])
+mut("c13-int8-no-remove", "C13", "cmd/gts/io.go", "if err := d.cache.Close(); err != nil || !d.commit {", "if d.cache.Close(); !d.commit {", ["INT-8|main.ioDelegate.Close|remove-on-failure"])
+mut("c13-int9-write-half", "C13", "cmd/cache/file.go", "return f.wr.Write(p)", "return f.wr.Write(p[:len(p)/2])", ["INT-9|cache.File.Write|passthrough"])
+mut("c13-silent-readfull", "C13", "cmd/cache/header.go",
+    '\tn, err := r.Read(p)\n\tif err != nil {\n\t\treturn Header{}, fmt.Errorf("while reading header: %v", err)\n\t}\n\tif n != len(p) {\n\t\treturn Header{}, errors.New("could not read sufficient bytes in header")\n\t}\n',
+    '\tif _, err := io.ReadFull(r, p); err != nil {\n\t\treturn Header{}, fmt.Errorf("while reading header: %v %v", err, errors.New(""))\n\t}\n',
+    silent=True, note="io.ReadFull is an accepted way to reject a short header")
+mut("c13-silent-named-const", "C13", "cmd/cache/file.go", "f.Seek(int64(size)*3, io.SeekStart)", "f.Seek(int64(size)*headerFields, io.SeekStart)",
+    silent=True, old2="// File represents a cache file.", new2="const headerFields = 3\n\n// File represents a cache file.")
+
 if __name__ == "__main__":
     here = os.path.dirname(os.path.abspath(__file__))
     ids = [m["id"] for m in M]
